@@ -91,6 +91,13 @@ def dstep (s : State) (line : String) : State × List String :=
   | ["N", h] => ({ fixed := s.fixed }, [s!"n {h}"])
   | ["CFG", "fixed", b] => ({ s with fixed := parseBool b }, [])
   | [] => (s, [])
+  | "q" :: ws =>
+    -- quiet op (part of a batch whose intermediate implementation states are not observable): result only
+    match parseOp ws with
+    | none => (s, ["bad-op " ++ line])
+    | some op =>
+      let (s', r) := step s op
+      (s', [showRes r])
   | ws =>
     match parseOp ws with
     | none => (s, ["bad-op " ++ line])
